@@ -293,3 +293,24 @@ def d_delayed_cancel():
 
 ALL += [d_delayed_cancel]
 WORDS["d_delayed_cancel"] = [["c"], ["c", "c"], []]
+
+
+def d_foreach():
+    # <foreach>: item assignment per iteration, nested <if>, events raised inside the loop, and an error in the body
+    # on the second iteration that ends the loop and the block
+    body1 = [assign("s", add(var("s"), var("x"))), log("it", var("x")), if_((cmp_("==", var("x"), lit(8)), [raise_("mid")]))]
+    body2 = [log("b", var("x")), if_((cmp_("==", var("x"), lit(8)), [fault("expr")])), log("after", var("x"))]
+    a = State(name="a", onentry=[[foreach("arr1", [7, 8, 9], "x", body1), log("sum", var("s"))]],
+              trans=[T("mid", ["b"]), T("e", ["b"])])
+    b = State(name="b", onentry=[[foreach("arr1", [7, 8, 9], "x", body2), log("never", var("x"))], [log("next", var("x"))]],
+              trans=[T("error.execution", ["c"])])
+    c = State(name="c", onentry=[[log("x", var("x"))]])
+    root = Scxml(a, b, c)
+    root.data = [("x", lit(0)), ("s", lit(0))]
+    ch = Chart(root, vars_=["x", "s"], tags=["foreach"])
+    ch.arrays = {"arr1": [7, 8, 9]}
+    return ch
+
+
+ALL += [d_foreach]
+WORDS["d_foreach"] = [["e"], []]
